@@ -428,24 +428,33 @@ def var_get_table(ctx, program, rid):
     """State.notify_var_get on every small combination of requested name, event values, last known values and existence."""
     uid = "state.py::State.notify_var_get"
     last_obj, old_obj, new_obj = ObjV("last_de", "StateVal"), ObjV("old_de", "StateVal"), ObjV("new_de", "StateVal")
-    names = ["d.e", "d.e.attr", "d.e.old", "d.e.old.attr", "d.other", "d.other.attr", "d.other.old.attr", "plain", "a.b.c.d.e"]
+    names = ["d.e", "d.e.attr", "d.e.old", "d.e.old.attr", "d.other", "d.other.attr", "d.other.old.attr", "plain", "a.b.c.d.e", "state.get", "d.other.upper"]
     for name in names:
         for ev in (False, True):            # the event carries d.e and d.e.old
             for known in (False, True):     # a last value of d.e is recorded
                 for exists in (False, True):
-                    if exists and len(name.split(".")) not in (2, 3):
-                        continue  # State.exist() is true for names of two or three parts only
+                    if exists and (len(name.split(".")) not in (2, 3) or name == "state.get"):
+                        continue  # State.exist() is true for names of two or three parts only (and `state.get` is a function, not an entity)
                     new_vars = DictV([(Const("d.e"), new_obj), (Const("d.e.old"), old_obj)] if ev else [])
                     heap = {"State.notify_var_last": DictV([(Const("d.e"), last_obj)] if known else []),
                             "last_de.attr": Const("last-attr"), "old_de.attr": Const("old-attr"), "new_de.attr": Const("new-attr")}
-                    pol = FlowPolicy(program, may_raise_all=False, cancel=False, summaries={"cls.exist": lambda i, n, a, k, c, o, e=exists: [(c, Const(e))],
-                                                                                            "cls.get": lambda i, n, a, k, c, o: [(c, Sym(("value now", a[0].v if a and isinstance(a[0], Const) else "?")))]})
+                    pol = FlowPolicy(program, may_raise_all=False, cancel=False, summaries={"cls.exist": lambda i, n, a, k, c, o, e=exists, nm=name: [(c, Const(e if (a and a[0] == Const(nm)) else bool(a and a[0] == Const("d.other") and nm == "d.other.upper")))],
+                                                                                            "cls.get": lambda i, n, a, k, c, o: [(c, Sym(("value now", a[0].v if a and isinstance(a[0], Const) else "?")))],
+                                                                                            "Function.get": lambda i, n, a, k, c, o: [(c, ObjV("a_function", "function") if a and a[0] == Const("state.get") else NONE)]})
                     pol.loop_unroll = 3
                     out = run_flow(program, uid, pol, args={"cls": ClassV("State"), "var_names": ListV((Const(name),), "list"), "new_vars": new_vars}, heap=heap)
                     parts = name.split(".")
                     ent = ".".join(parts[:2])
                     # reference (documentation of state trigger expressions + the behaviour confirmed on the reviewed tree)
-                    if ev and name in ("d.e", "d.e.old"):
+                    if name == "d.other.upper":
+                        if exists:
+                            continue
+                        # a method of the value (`d.other.upper() == 'ON'`): no such attribute, but the entity exists - the method of its value as of the event, never None
+                        want = "method of the value now"
+                    elif name == "state.get":
+                        # the dotted name of a pyscript function (`state.get('x') == 'on'` in an expression): it is not a state variable; bound to None it would hide the function
+                        want = "absent"
+                    elif ev and name in ("d.e", "d.e.old"):
                         want = {"d.e": new_obj, "d.e.old": old_obj}[name]
                     elif known and name == "d.e":
                         want = last_obj
@@ -468,6 +477,8 @@ def var_get_table(ctx, program, rid):
                             got.add(d)
                         else:
                             v = r.get(Const(name))
+                            if name == "d.other.upper" and v is not None and "value now" in repr(v) and "d.other" in repr(v) and "upper" in repr(v):
+                                v = "method of the value now"
                             got.add("absent" if v is None else v)
                     label = f"{name}: event {'carries' if ev else 'lacks'} d.e, last value {'known' if known else 'unknown'}, name {'exists' if exists else 'does not exist'}"
                     ctx.check(got == {want}, rid, uid, label, msg=f"notify_var_get(['{name}']) with {label}: value {sorted(map(repr, got))}, specified {want!r}: the trigger expression is evaluated "
